@@ -601,6 +601,13 @@ func checkC15(seed uint64, replayDir, corpusDir string) (map[string]any, int) {
 		r := base.fork()
 		g := &gen{r: r, p: profiles[pick(r, []string{"wellformed", "malformed", "rollouts", "segments"})]}
 		ec := g.evalCase(fmt.Sprintf("C15/%d/%d", seed, i))
+		if r.chance(1, 15) {
+			var sp *WSegment
+			if len(ec.Store.Segments) > 0 {
+				sp = &ec.Store.Segments[0]
+			}
+			widenLists(r, &ec.Flag, sp)
+		}
 		doc := flagDoc(&ec.Flag)
 		stream := "docs"
 		if r.chance(1, 3) {
@@ -637,6 +644,9 @@ func checkC15(seed uint64, replayDir, corpusDir string) (map[string]any, int) {
 			g2 := &gen{r: r, p: profiles["wellformed"]}
 			g2.p.PMalformed = 0
 			wf := g2.flag("bf", flagKeyPool, segKeyPool)
+			if r.chance(1, 15) {
+				widenLists(r, &wf, nil)
+			}
 			sanitizeFlag(&wf)
 			recovering(t, "builders", func() map[string]any { return map[string]any{"flag": wf} }, func() {
 				v := buildWithBuilders(&wf)
@@ -660,6 +670,9 @@ func checkC15(seed uint64, replayDir, corpusDir string) (map[string]any, int) {
 				t.distinct["b:"+flagDumpJSON(&v)] = true
 			})
 			ws := g2.segment("bs", segKeyPool)
+			if r.chance(1, 15) {
+				widenLists(r, nil, &ws)
+			}
 			sanitizeSegment(&ws)
 			recovering(t, "builders", func() map[string]any { return map[string]any{"segment": ws} }, func() {
 				v := buildSegmentWithBuilders(&ws)
@@ -698,9 +711,12 @@ func checkC16(seed uint64, replayDir, corpusDir string) (map[string]any, int) {
 		r := base.fork()
 		g := &gen{r: r, p: profiles[pick(r, []string{"wellformed", "malformed", "rollouts", "segments", "targets"})]}
 		wf := g.flag("f", flagKeyPool, segKeyPool)
-		wf.Form = pick(r, []string{"plain", "pre", "json"})
+		wf.Form = pick(r, handForms)
 		ws := g.segment("s", segKeyPool)
-		ws.Form = pick(r, []string{"plain", "pre", "json"})
+		ws.Form = pick(r, handForms)
+		if r.chance(1, 15) {
+			widenLists(r, &wf, &ws)
+		}
 		// any syntactically valid document (not only the encoder's own output): every decode path
 		// agrees on whether it is accepted and on the value — unknown properties, any member order,
 		// nulls, wrong types, duplicate members
@@ -950,6 +966,9 @@ func checkC17(seed uint64, replayDir, corpusDir string) (map[string]any, int) {
 		g := &gen{r: r, p: profiles[pick(r, []string{"wellformed", "malformed", "rollouts", "segments"})]}
 		wf := g.flag("f", flagKeyPool, segKeyPool)
 		ws := g.segment("s", segKeyPool)
+		if r.chance(1, 20) {
+			widenLists(r, &wf, &ws)
+		}
 		for _, kd := range []struct {
 			kind string
 			doc  JV
